@@ -67,6 +67,11 @@ pub fn pick_flavor(rng: &mut Rng) -> Flavor {
         let _ = rng.chance(1, 2);
         return Flavor::Sync;
     }
+    if !cfg!(feature = "sync_flavour") {
+        // ... against `async` alone: `AsyncCache` only
+        let _ = rng.chance(1, 2);
+        return Flavor::Async;
+    }
     match std::env::var("DST_FLAVOR").ok().as_deref() {
         Some("sync") => Flavor::Sync,
         Some("async") => Flavor::Async,
@@ -85,6 +90,9 @@ pub fn pick_flavor_l(rng: &mut Rng) -> Flavor {
     if !cfg!(feature = "async_flavour") {
         let _ = rng.below(20);
         return Flavor::Sync;
+    }
+    if !cfg!(feature = "sync_flavour") {
+        return if rng.below(20) < 13 { Flavor::Async } else { Flavor::AsyncLocal };
     }
     match std::env::var("DST_FLAVOR").ok().as_deref() {
         Some("sync") => Flavor::Sync,
